@@ -257,6 +257,35 @@ def check_siblings(ctx, case):
                                   {**info, "out": out, "finding_tags": ["F18"] if exp18 is not None and got == exp18 else []})
 
 
+def check_two_wildcards(ctx):
+    """Two namespace-restricted wildcards in one model (##targetNamespace and ##other): every captured element
+    lands in the field whose namespace rule admits it - also when its LOCAL name was seen before in the other
+    namespace - and the children come back as written."""
+    from ..poly_models import WildTwo
+
+    docs = ['<w:item>1</w:item><w:mid>2</w:mid><o:item>3</o:item>', '<w:a/><o:a/>', '<w:a>x</w:a><w:b/><o:b k="v">y</o:b><o:a/>',
+            '<w:n><o:n/></w:n><o:n><w:n/></o:n>']
+    xctx = XmlContext()
+    for body in docs:
+        text = f'<w:WildTwo xmlns:w="urn:wild" xmlns:o="urn:o">{body}</w:WildTwo>'
+        src = infoset.parse(text)
+        want = [infoset.canon(c, strip_ws_between_children=False) for c in src["content"] if isinstance(c, dict)]
+        for h in ("native", "lxml"):
+            ctx.case(("two-wildcards", body, h))
+            st, obj, _w = hb.parse(text, h, xctx, WildTwo, "str", ParserConfig())
+            info = {"text": text, "handler": h}
+            if st != "ok":
+                ctx.violation(f"two restricted wildcards ({h}): {type(obj).__name__}: {obj}", info)
+                continue
+            wrong = [e.qname for e in obj.own if not e.qname.startswith("{urn:wild}")] + [e.qname for e in obj.other if e.qname.startswith("{urn:wild}")]
+            if wrong:
+                ctx.violation(f"two restricted wildcards ({h}): {wrong} captured by the wildcard that does not admit their namespace", {**info, "obj": repr(obj)[:600]})
+            out = rb.render(obj, xctx, "native")
+            got = [infoset.canon(c, strip_ws_between_children=False) for c in infoset.parse(out)["content"] if isinstance(c, dict)]
+            if got != want:
+                ctx.violation(f"two restricted wildcards ({h}): the children came back as {got}, the source says {want}", {**info, "out": out})
+
+
 def run(ctx):
     ctx.rule = (
         "TLC: ALL generic trees of depth <= 2 with <= MaxKids children over 3 names x 4 attribute sets x 3 texts x 3 tails "
@@ -291,6 +320,7 @@ def run(ctx):
         c = cases[len(cases) // 2]
         ctx.sample({"source_tree": c["src"], "as_text": tree_text(c["src"]), "reference": c["ref"]})
     ctx.extra["trees_replayed"] = len(cases)
+    check_two_wildcards(ctx)
     xsi_primitives(ctx)
 
 
